@@ -4,6 +4,7 @@ from ..lib import mach, machgen
 RULE = ("generated programs with tasks awaited by several parents, already-computed futures yielded again, empty structures, "
         "never-awaited tasks; every case runs under a 30 s watchdog (a hang is a violation); distinct = different "
         "AST+params; non-trivial = some task has >= 2 yields or a handle is shared")
+TRANSLATED = True     # unwrap / extract_futures are re-translated from the source on every run (harness/lib/transcheck.py)
 TRUSTED = ["Python/Gallina emitters of harness/lib/machprog.py", "SIGALRM watchdog of the implementation runner"]
 ASSUMPTIONS = ["the interpreter's recursion limit is runtime behaviour: exercised by the deep-chain cases, not proved"]
 EXPLANATION = "projection: Step events (task, index) in order, Done events"
